@@ -266,7 +266,7 @@ func g16Eq(c *Ctx) {
 		or := &Oracle{}
 		for n := 0; n < 64; n++ {
 			or.pos = 0
-			in := &Interp{repo: c.Repo, plugin: "derive", decls: c.R.decls, or: or, memo: map[string]int{}, shape: 2, arities: []int{2, 1, 0},
+			in := &Interp{repo: c.Repo, plugin: "derive", decls: c.GDecls, or: or, memo: map[string]int{}, shape: 2, arities: []int{2, 1, 0},
 				preds: map[string]Value{}, stack: map[*ast.FuncDecl]int{}, imports: map[string]int{}, importUse: map[string]bool{}, holes: map[string]*Hole{}, g9mode: true}
 			var res Value
 			msg := ""
@@ -660,7 +660,7 @@ func g20AliasInjective(c *Ctx) {
 		"github.com/gogo/protobuf/types", "github.com/golang/protobuf/types", "example.com/x/y-z", "example.com/x/yz"}
 	got := map[string]string{}
 	for _, p := range paths {
-		in := &Interp{repo: c.Repo, plugin: "derive", decls: c.R.decls, or: &Oracle{}, memo: map[string]int{}, shape: 1, arities: []int{1, 0},
+		in := &Interp{repo: c.Repo, plugin: "derive", decls: c.GDecls, or: &Oracle{}, memo: map[string]int{}, shape: 1, arities: []int{1, 0},
 			preds: map[string]Value{}, stack: map[*ast.FuncDecl]int{}, imports: map[string]int{}, importUse: map[string]bool{}, holes: map[string]*Hole{}, g9mode: true}
 		var res Value
 		msg := ""
